@@ -3060,9 +3060,10 @@ orc_compiler_avx_register_rules (OrcTarget *target)
 #define REGISTER_RULE_WITH_GENERIC_AND_PAYLOAD(x, y, z) \
   orc_rule_register (rule_set, #x, avx_rule_##y, (void *)z)
 
-  /* AVX */
+  /* AVX: these rules use the 256-bit forms of integer instructions (vpsllw,
+   * vpor, vpunpck*, vpshufd, ... on ymm registers), which need AVX2 */
   OrcRuleSet *rule_set = orc_rule_set_new (orc_opcode_set_get ("sys"), target,
-      ORC_TARGET_AVX_AVX);
+      ORC_TARGET_AVX_AVX | ORC_TARGET_AVX_AVX2);
 
   REGISTER_RULE_WITH_GENERIC (loadb, loadX);
   REGISTER_RULE_WITH_GENERIC (loadw, loadX);
